@@ -356,6 +356,9 @@ func init() {
 		return nil
 	})
 
+	reg("(time.Time).Format", func(ex *Exec, fn *ssa.Function, a []Value) Value { return ex.opaqueStr("time.Format") })
+	reg("(time.Time).String", func(ex *Exec, fn *ssa.Function, a []Value) Value { return ex.opaqueStr("time.String") })
+	reg("(time.Time).GoString", func(ex *Exec, fn *ssa.Function, a []Value) Value { return ex.opaqueStr("time.GoString") })
 	reg("maps.clone", func(ex *Exec, fn *ssa.Function, a []Value) Value {
 		iv := a[0].(Iface)
 		m := iv.v.(*Map)
